@@ -250,7 +250,7 @@ theorem temporal_text_roundtrip (dt : Iso.DateTime) (hv : Iso.validDateTime dt =
     simp only [parseTemporal, isoInput, Iso.cast, h]
   · intro kind s
     have h := C08.utf8_bytes_as_text s
-    cases kind <;> simp only [parseTemporal, isoInput, Iso.cast, h]
+    cases kind <;> simp only [parseTemporal, isoInput, Iso.cast, h, Iso.decodeUtf8_toUTF8]
 
 /-- **The generated factory expressions** (`decimal.Context(prec=…)`, `safe_scale = …`,
 `Decimal(10) ** …`, lifted from `DecimalFactory.__call__` on this run) cover the statement: the
